@@ -215,6 +215,53 @@ def r2(F, rep):
         raise AnalysisBroken("only %d dimension-suffixed locals found in integrate_potential" % n)
 
 
+def r3(F, rep):
+    rep.rule("C16-R3", "the incremental divergence update visits every cell whose divergence depends on the changed gradient: "
+                       "update_div_neighbors() calls update_div_local() on 2^d grid points (4 calls in two dimensions; a 2x2x2 "
+                       "loop nest in three), and every call is preceded by wrap() of the index it uses")
+    f = F.one("integrate_potential::update_div_neighbors")
+    res = X.const_locals(f)
+    calls = [c for c in X.calls(f) if X.callee_name(c) == "update_div_local"]
+    wraps = [c for c in X.calls(f) if X.callee_name(c) == "wrap"]
+    by_dim = {}
+    for c in calls:
+        facts, _ = C.guard_facts(f, c, res)
+        dim = None
+        for t in facts:
+            if t[0] == "cmp" and t[1] == "==" and "nd" in t[2] and t[3] in ("2", "3"):
+                dim = int(t[3])
+            if t[0] == "eq" and "nd" in str(t):
+                for v in ("2", "3"):
+                    if v in t[1:]:
+                        dim = int(v)
+        loops = [a for a in f.ancestors(c) if a["k"] == "ForStmt"]
+        mult = 1
+        for l in loops:
+            cnd = X.strip(l["c"][1]) if l["c"][1] is not None else None
+            if cnd is not None and cnd["k"] == "BinaryOperator" and cnd["op"] == "<" and C._lit(X.kids(cnd)[1]) is not None:
+                mult *= int(C._lit(X.kids(cnd)[1]))
+            else:
+                mult = 0
+        by_dim.setdefault(dim, []).append((c, mult))
+    for dim in (2, 3):
+        total = sum(m for _, m in by_dim.get(dim, []))
+        rep.add("C16-R3", "cells|%dd" % dim, f.loc(by_dim[dim][0][0]) if by_dim.get(dim) else f.loc(),
+                "in %d dimensions update_div_local() runs on %d grid points (expected %d)" % (dim, total, 2 ** dim), total == 2 ** dim,
+                detail="a neighbouring cell keeps a stale divergence: the incrementally maintained PMF differs from the batch one", func=f.q)
+    for i, c in enumerate(calls):
+        # a wrap() of the same index vector executes between the previous index change and this call
+        prev = [w for w in wraps if f.cfg.can_reach(w, c)]
+        first_plain = (i == 0 and not any(a["k"] == "ForStmt" for a in f.ancestors(c)))
+        ok = first_plain or any(f.cfg.dominates(w, c) or (any(a["k"] == "ForStmt" for a in f.ancestors(c)) and
+                                                           [a for a in f.ancestors(w) if a["k"] == "ForStmt"][:1] == [a for a in f.ancestors(c) if a["k"] == "ForStmt"][:1])
+                                for w in prev)
+        rep.add("C16-R3", "wrapped|#%d" % (i + 1), f.loc(c), "update_div_local() call #%d uses an index that was wrapped after it was moved" % (i + 1), ok,
+                detail="with periodic boundaries the neighbour across the boundary would be addressed outside the grid", func=f.q)
+    if len(calls) < 2:
+        raise AnalysisBroken("update_div_neighbors: only %d update_div_local calls found" % len(calls))
+
+
 def run(F, rep, tier):
     r1(F, rep)
     r2(F, rep)
+    r3(F, rep)
